@@ -82,4 +82,19 @@ def breakerClosed (pct : Nat) (i : RepairIn) : Bool :=
 def repairMayDelete (pct : Nat) (i : RepairIn) : Bool :=
   tolerationLasted i.policies i.node.conds i.now && breakerClosed pct i
 
+/-! ### Node repair acts on the Node's *own* NodeClaim: "deletes a node only after **its** unhealthy condition
+    has lasted …" — the NodeClaim that is deleted must be the reconciled Node's -/
+
+/-- NodeClaim `c` is the NodeClaim of the Node with provider id `nodePid`: they name the same instance. A Node
+    without a provider id is (yet) nobody's Node, and a NodeClaim that has no provider id yet (still launching)
+    has no Node — and hence no condition, unhealthy or otherwise. -/
+def claimIsOfNode (nodePid : String) (c : TClaim) : Bool := nodePid != "" && c.pid != "" && c.pid == nodePid
+
+/-- may node repair, reconciling the Node of `i`, issue a Delete for the NodeClaim called `name`? -/
+def repairTargetMayDelete (pct : Nat) (i : RepairTIn) (name : String) : Bool :=
+  i.claims.any (fun c => c.name == name && claimIsOfNode i.nodePid c && repairMayDelete pct (i.view c))
+
+def repairTargetDeletesOk (pct : Nat) (i : RepairTIn) (deleted : List String) : Bool :=
+  deleted.all (repairTargetMayDelete pct i)
+
 end Karp.Spec.Reapers
